@@ -12,7 +12,7 @@ McKeys  == IF Big THEN {W(97), W(98), W(99)} ELSE {W(97), W(98)}
 Pairs   == {<<k, v>> : k \in McKeys, v \in McVals}
 Lists(n) == UNION {[1..k -> Pairs] : k \in 0..n}
 McArgLists == {a \in Lists(2) : DistinctKeys(a)}
-McNewLists == {a \in Lists(IF Big THEN 2 ELSE 1) : DistinctKeys(a)}
+McNewLists == {a \in Lists(1) : TRUE} \cup (IF Big THEN {a \in Lists(2) : Len(a) = 2 /\ DistinctKeys(a) /\ a[1][2] = W(121)} ELSE {})
 ASSUME KeyvalLemma(McNames, McArgLists, {a \in Lists(1) : TRUE} \cup {<<<<W(97), W(121)>>, <<W(99), <<103, OPEN, CLOSE>>>>>>})
 \* what is outside the domain is not claimed canonical: stray text, blanks, duplicate keys
 ASSUME ~Canonical(<<102, OPEN, 97, EQ, 120, CLOSE, 120>>)
